@@ -373,22 +373,11 @@ where
                             }))),
                         }))),
                     ];
-                    if let Some((_, default)) = defaults.iter().flatten().find(|(name, _)| {
-                        name.eq_ignore_span(&prop_name)
-                            || if let (
-                                PropName::Ident(IdentName { sym: a, .. }),
-                                PropName::Str(Str { value: b, .. }),
-                            )
-                            | (
-                                PropName::Str(Str { value: a, .. }),
-                                PropName::Ident(IdentName { sym: b, .. }),
-                            ) = (&**name, &prop_name)
-                            {
-                                a == b
-                            } else {
-                                false
-                            }
-                    }) {
+                    if let Some((_, default)) = defaults
+                        .iter()
+                        .flatten()
+                        .find(|(name, _)| is_same_prop_name(name, &prop_name))
+                    {
                         let default = match default {
                             // Vue never calls the default of a `Function` prop as a factory,
                             // so such a prop gets the written function itself
@@ -1384,6 +1373,22 @@ fn extract_prop_name(expr: Expr, computed: bool) -> PropName {
             }
         }
     }
+}
+
+/// `a`, `"a"` and `["a"]` are the same key, and so are `1`, `"1"` and `1.0`.
+fn is_same_prop_name(a: &PropName, b: &PropName) -> bool {
+    fn key_of(name: &PropName) -> Option<Cow<str>> {
+        match name {
+            PropName::Ident(IdentName { sym, .. }) => Some(Cow::Borrowed(&**sym)),
+            PropName::Str(Str { value, .. }) => Some(Cow::Borrowed(&**value)),
+            // (the keys a number can be spelled as here print the way JavaScript prints them)
+            PropName::Num(Number { value, .. }) if value.is_finite() && value.abs() < 1e21 => {
+                Some(Cow::Owned(value.to_string()))
+            }
+            _ => None,
+        }
+    }
+    a.eq_ignore_span(b) || key_of(a).zip(key_of(b)).is_some_and(|(a, b)| a == b)
 }
 
 fn try_unwrap_lit_prop_name(prop_name: &PropName) -> Option<Cow<PropName>> {
